@@ -52,15 +52,31 @@ func GenStreamSchema(tp *simcore.Tape, o SchemaOpts) *StreamSchema {
 	}
 	s.Tags = append(s.Tags, TagSpec{Name: "wid", Family: fam, Type: databasev1.TagType_TAG_TYPE_INT})
 	nTags := tp.Weighted(2, 3, 3, 2, 1)
+	// 0 = index rules drawn per tag; 1 = a skipping rule on every string/int tag (several block filters per tag
+	// family); 2 = an inverted rule on every tag
+	indexMode := tp.Side().Weighted(3, 1, 1)
+	if indexMode == 1 && tp.Side().Bool(1, 2) { // and mostly string tags: dictionary-encoded columns next to each other
+		nTags = max(nTags, 3)
+	}
 	for i := 0; i < nTags; i++ {
 		if i == 2 && tp.Bool(1, 2) {
 			fam = "data"
 			s.Families = append(s.Families, fam)
 		}
 		t := tagTypesNonEntity[tp.Choose(len(tagTypesNonEntity))]
+		if indexMode == 1 && tp.Side().Bool(2, 3) {
+			t = databasev1.TagType_TAG_TYPE_STRING
+		}
 		ts := TagSpec{Name: fmt.Sprintf("t%d", i), Family: fam, Type: t}
 		if !o.NoIndexRules && t != databasev1.TagType_TAG_TYPE_DATA_BINARY {
-			switch tp.Weighted(4, 2, 1) {
+			pick := tp.Weighted(4, 2, 1)
+			switch indexMode { // side-tape facet: every tag that can carry the rule gets it
+			case 1:
+				pick = 2
+			case 2:
+				pick = 1
+			}
+			switch pick {
 			case 1:
 				ts.Indexed = true
 			case 2:
